@@ -14,6 +14,9 @@ func (x *Exec) AfterFunc(d time.Duration, name string, fn func()) *TimerHandle {
 func (h *TimerHandle) Stop() bool {
 	was := h.tm.active
 	h.tm.active = false
+	if x := cur; x != nil && x.cur != nil && !x.aborting {
+		x.Touch(&x.timerCell, 0x72)
+	}
 	return was
 }
 
